@@ -88,10 +88,10 @@ def literal_value(text):
     m = re.fullmatch(r"\^([xXoObBdD])([0-9a-fA-F]+)", s)
     if m:
         base = {"x": 16, "o": 8, "b": 2, "d": 10}[m.group(1).lower()]
-        try:
-            return sign * int(m.group(2), base)
-        except ValueError:
-            return None
+        digits = m.group(2).lower()
+        if any(c not in "0123456789abcdef"[:base] for c in digits):
+            return None         # (int() itself would also accept a nested '0b' / '0x' prefix and '_' separators: not digits of this radix)
+        return sign * int(digits, base)
     m = re.fullmatch(r"0[xX]([0-9a-fA-F]+)", s)
     if m:
         return sign * int(m.group(1), 16)
